@@ -10,7 +10,7 @@ PROPERTY = "C15"
 LEVEL = "exploration"
 CHUNK = 64
 RULE = ("all matrices over the integer palette with n rows, s sensitive and o other columns (all 3^(n(s+o)) of them while <= 60k, "
-        "otherwise the binary palette; quick: limit 7k) x sensitive positions {first, last, interleaved} x alpha in {1,0,1/2,0.3} x input as float ndarray "
+        "otherwise the binary palette; quick: limit 7k) x sensitive positions {first, last, interleaved, middle} x alpha in {1,0,1/2,0.3} x input as float ndarray "
         "(by position), integer-dtype ndarray / DataFrame and DataFrame (by name, shuffled index) x transform on a second matrix derived from the case; reference: "
         "centre each sensitive column by ITS OWN mean, projection via numpy.linalg.pinv; oracle: (a) alpha=1 => zero sample "
         "covariance with every sensitive column, (b) output = alpha*residual + (1-alpha)*original, (c) sensitive columns dropped, "
@@ -84,7 +84,8 @@ def run_case(case):
     M2 = M[::-1] * 2.0 + 1.0
     S2, O2 = M2[:, :s], M2[:, s:]
     k = s + o
-    layouts = {"first": list(range(s)), "last": list(range(o, k)), "interleaved": [min(k - 1, 2 * j) for j in range(s)] if 2 * (s - 1) < k else None}
+    layouts = {"first": list(range(s)), "last": list(range(o, k)), "interleaved": [min(k - 1, 2 * j) for j in range(s)] if 2 * (s - 1) < k else None,
+               "middle": list(range(1, s + 1)) if o >= 2 else None}  # other columns on both sides of the sensitive block
     outcome = None
     for lname, spos in layouts.items():
         if spos is None or len(set(spos)) < s:
